@@ -61,3 +61,10 @@ Proof.
       destruct (existsb (fun c => dominates c c2) kept); cbn [negb]; rewrite ?IH; reflexivity ].
 Qed.
 
+
+(* sort_types: what one comparison adds to the dependency graph; TypeMap.__missing__: the level given to a round *)
+Lemma edge_agree o : edge_src o = edge_dir o.
+Proof. first [reflexivity | destruct o; reflexivity]. Qed.
+
+Lemma level_agree nr r : level_index_src nr r = level_index nr r.
+Proof. first [reflexivity | unfold level_index_src, level_index; lia]. Qed.
